@@ -229,6 +229,7 @@ class Disk:
 
     def _write(self, full_path, iterator, mode, encoding=None):
         full_dir, _ = op.split(full_path)
+        newline = None if encoding is None else ''
 
         for count in range(1, 11):
             with cl.suppress(OSError):
@@ -237,7 +238,9 @@ class Disk:
             try:
                 # Another cache may have deleted the directory before
                 # the file could be opened.
-                writer = open(full_path, mode, encoding=encoding)
+                writer = open(
+                    full_path, mode, encoding=encoding, newline=newline
+                )
             except OSError:
                 if count == 10:
                     # Give up after 10 tries to open the file.
@@ -274,7 +277,7 @@ class Disk:
                     return reader.read()
         elif mode == MODE_TEXT:
             full_path = op.join(self._directory, filename)
-            with open(full_path, 'r', encoding='UTF-8') as reader:
+            with open(full_path, 'r', encoding='UTF-8', newline='') as reader:
                 return reader.read()
         elif mode == MODE_PICKLE:
             if value is None:
